@@ -181,6 +181,14 @@ def mk_Nasa_surface(ctx):
     return _nasa(ctx, phase='S', name='H(S)', cat_site=site, n_sites=1)
 
 
+def mk_Nasa9_descending(ctx):
+    """the temperature intervals are stored hottest first (any order is accepted by the class)"""
+    from pmutt.empirical.nasa import Nasa9, SingleNasa9
+    segs = [SingleNasa9(T_low=1000., T_high=3500., a=np_array(ctx, [_num(ctx, 's1a%d' % i, -10, 10) for i in range(9)])),
+            SingleNasa9(T_low=200., T_high=1000., a=np_array(ctx, [_num(ctx, 's0a%d' % i, -10, 10) for i in range(9)]))]
+    return Nasa9(name='CH4', nasas=segs, elements={'C': 1, 'H': 4}, phase='G', notes='n9')
+
+
 def mk_Nasa9(ctx):
     from pmutt.empirical.nasa import Nasa9, SingleNasa9
     segs = [SingleNasa9(T_low=200., T_high=1000., a=np_array(ctx, [_num(ctx, 's0a%d' % i, -10, 10) for i in range(9)])),
@@ -344,6 +352,7 @@ CASES = {
     'Nasa+cat_site': (mk_Nasa_surface, EMP_G, ['name', 'phase', 'n_sites']),
     'Nasa9': (mk_Nasa9, EMP_G, ['name', 'elements', 'phase', 'notes', 'n_sites']),
     'SingleNasa9': (mk_SingleNasa9, ['get_CpoR', 'get_HoRT', 'get_SoR'], ['T_low', 'T_high']),
+    'Nasa9/intervals-stored-hottest-first': (mk_Nasa9_descending, EMP_G, ['name', 'elements', 'phase']),
     'Shomate': (mk_Shomate, EMP_G, ['name', 'elements', 'phase', 'notes', 'units', 'T_low', 'T_high']),
     'GasPressureAdj': (mk_GasPressureAdj, ['get_SoR', 'get_HoRT', 'get_CpoR'], []),
     'PiecewiseCovEffect': (mk_PiecewiseCovEffect, [('get_HoRT', dict(x=0.55)), ('get_GoRT', dict(x=0.95)), ('get_UoRT', dict(x=0.05))], ['name_i', 'name_j', 'name']),
@@ -413,6 +422,10 @@ def _attr_same(a, b):
 
 def h_case(ctx, case, times):
     mk, getters, attrs = CASES[case]
+    if 'eference' in case:
+        # a reload that re-fits reference offsets reaches numpy.linalg.lstsq: contract stub (normal equations), as in C10
+        from checks.c10 import _install_lstsq
+        _install_lstsq(ctx)
     obj = mk(ctx)
     T = ctx.real('T', 300, 2000)
     P = ctx.real('P', 0.01, 100)
